@@ -357,13 +357,13 @@ func c06Coq(cs *c06Case) string {
 		obs[i] = fmt.Sprintf("{| co_landed_meta := %d%%nat; co_listed := %s; co_latest := %s; co_labels := %s; co_prior_ok := %v; co_new_keys := %s; co_new_readable := %v; co_retry_ok := %v |}",
 			c.LandedMeta, listed, latest, labels, c.PriorOk, strList(c.NewKeys), c.NewRead, c.RetryOk && c.SameIDOk)
 	}
-	return fmt.Sprintf("{| ac_before := {| sn_meta := %s; sn_vmeta := %s |}; ac_kind := %s; ac_E := 1000%%nat; ac_crashes := [%s] |}",
+	return fmt.Sprintf("{| ac_before := {| sn_meta := %s; sn_vmeta := %s |}; ac_kind := %s; ac_E := defaultBundleEntriesPerFile; ac_crashes := [%s] |}",
 		cs.before[0], cs.before[1], kind, strings.Join(obs, ";\n "))
 }
 
 func init() {
 	props["C06"] = func(c *Ctx) {
-		c.Header = "From Coq Require Import List String NArith.\nFrom DM Require Import Model.Meta Model.ListCheck Model.RepoOps Model.WorldCheck Model.Atomic Model.AtomicCheck.\nImport ListNotations.\nOpen Scope list_scope."
+		c.Header = "From Coq Require Import List String NArith.\nFrom DM Require Import Gen.Consts Model.Meta Model.ListCheck Model.RepoOps Model.WorldCheck Model.Atomic Model.AtomicCheck.\nImport ListNotations.\nOpen Scope list_scope."
 		c.CaseTy = "acase"
 		c.Report = "report"
 		c.PerFile = 2
